@@ -26,6 +26,7 @@ META = {
         "C15.T1 writer/reader alphabet: quoted-run characters cannot close the run; the reader unquotes with a strip set disjoint from them; escapes are byte values under the item's codec on both sides",
         "C15.P1 rejection: list items end only at '>' (exact terminator set), unknown type names and a missing '<' raise",
         "C15.T2 SML type names are the reader's dispatch keys; written numbers are in a syntax the reader accepts",
+        "C15.T3 every number a writer emits is within the reader's bounds: numeric widths read their exact range and write with the family's formatter, character/byte codes 0..0xFF, booleans 0..1",
     ],
     "does_not_decide": ["float text round trip (repr precision)", "semantic equality of parsed values beyond the token/alphabet agreement"],
     "assumptions": ["string.printable is the stdlib constant of this interpreter (read from the interpreter, a platform fact)"],
@@ -459,7 +460,35 @@ def check_text_writer(ctx):
     ctx.ob("C15.T1", q, ok, "the item is written as `< TYPE text>`" if ok else f"the item text is assembled as {tpl}", key="writer-frame", where=f.where)
 
 
+def check_reader_bounds(ctx):
+    """C15.T3: every number a writer can emit lies within the bounds the reader enforces (`_read_sml_token` refuses what
+    is outside [_minimum_value, _maximum_value]): numeric widths read exactly their representable range and write with
+    the family's formatter (no per-width override), character codes of A/J text and B bytes read 0..0xFF, booleans 0..1."""
+    from . import _items, c14
+
+    n = _items.check_numeric_table(ctx, "C15.T3", c14.ITEM_NUMERIC, c14.ITEM_ATTRS)
+    ctx.floor("numeric item classes", n, 10)
+    repo = ctx.repo
+    m = 0
+    for cname, lo, hi, what in (("ItemStr", 0, 0xFF, "character codes"), ("ItemA", 0, 0xFF, "character codes"), ("ItemJ", 0, 0xFF, "character codes"),
+                                ("ItemB", 0, 0xFF, "byte values"), ("ItemBOOLEAN", 0, 1, "truth values")):
+        cls = repo.cls(cname)
+        ctx.touch(cls)
+        mn, mx = repo.const(cls, "_minimum_value"), repo.const(cls, "_maximum_value")
+        ok = (mn, mx) == (lo, hi)
+        m += 1
+        ctx.ob("C15.T3", cname, ok, f"{cname}: the reader accepts {what} {lo}..{hi}, all the writer emits" if ok else
+               f"{cname}: the reader accepts {what} [{mn!r}, {mx!r}] but the writer emits every value in [{lo}, {hi}]: text the library wrote itself is refused when parsed back",
+               key="reader-range", where=cls.where)
+    ctx.floor("text/binary/boolean reader ranges", m, 5)
+    users = [f for f in repo.functions if f.cls is not None and f.cls.name.startswith("Item") and "_minimum_value" in norm(f.node) and "_maximum_value" in norm(f.node) and any(isinstance(x, ast.Compare) for x in ast.walk(f.node))]
+    ctx.require(users, "no bounds test on _minimum_value/_maximum_value in the Item classes: the reader's range rule has lost its anchor")
+    for f in users:
+        ctx.touch(f)
+
+
 def run(ctx):
+    check_reader_bounds(ctx)
     check_text_writer(ctx)
     check_tokenizer(ctx)
     check_readers(ctx)
